@@ -35,7 +35,13 @@ def evaluate(case):
     L = case["listing"]
     text = render(att_view(L), cont=set(case.get("cont", ())))
     macros = [SHIPPED_MACROS] if case["macros"] else None
-    res = run_all_modes(jasm_io.make_doc(case["pattern"]), text, macros)
+    cfg = {}
+    if case.get("transparent_addr_range"):
+        cfg["valid_addr_range"] = {"min": "fffffffff000", "max": "fffffffffff0"}
+        ev.tags.append("addr-range-observer")
+    if case.get("cont") and len(case["cont"]) % 2:
+        cfg["style"] = "att"
+    res = run_all_modes(jasm_io.make_doc(case["pattern"], config=cfg or None), text, macros)
     ev.subcases = 8
     kinds = {k: r[0] for k, r in res.items()}
     ev.tags = [f"feat={f}" for f in case["features"]]
